@@ -527,6 +527,14 @@ class Item:
         """Sidecar-declared textual rewrites: `from` must occur exactly `count` (default 1) times, verbatim after
         whitespace normalisation of both; recorded in the evidence."""
         for rw in rewrites:
+            if "regex" in rw:
+                # generic token-shape rule: applies wherever the shape occurs (any number of times, also zero)
+                new, n = re.subn(rw["regex"], rw["to"], self.text)
+                if n:
+                    self.log.append({"rule": rw.get("rule", "R*"), "what": f"{n} x /{rw['regex']}/ -> `{rw['to']}`"
+                                     + (f" ({rw['why']})" if rw.get("why") else "")})
+                self.text = new
+                continue
             frm, to = rw["from"], rw["to"]
             cnt = rw.get("count", 1)
             pat = re.compile(r"\s*".join(re.escape(p) for p in _ws_split(frm)))
